@@ -159,17 +159,31 @@ Theorem C01_text : forall funcs defs fuel dot st e fs s j s' t s2,
 Proof. exact text_action. Qed.
 Print Assumptions C01_text.
 
-(* the same through cwrap, which emits static text for a literal and `{{op x | __pug__html}}` for ! and unary - *)
+(* the same through cwrap, which emits static text for a literal and `{{op x | __pug__html}}` for ! and unary -.
+   [str_single]: since the repair F-C06-f a string literal with a template delimiter in it is written as
+   several tokens (text and quoting actions, C06_code_literal); the one-token statement is for the others *)
 Theorem C01_text_cwrap : forall funcs defs fuel dot st e fs s j s' t s2 toks,
   scalar_core funcs e = true -> (need e < expr_fuel)%nat ->
   env_repu_on (fv e) (e_vars (env_of st dot)) (s_env s) -> env_range_on (fv e) (s_env s) ->
   sem_expr fs s e = SOk (j, s') -> s_flags s' = s_flags s -> dead_quiet fs s e = true ->
   printable j = true -> print_string s' j = SOk (t, s2) ->
+  str_single e = true ->
   cwrap funcs false e = Some toks ->
   exists tk n, toks = [tk] /\ node_of_tok tk = Some n /\
                exec_node defs (S fuel) dot st n = Ok (emit st (escape t)).
 Proof. exact text_cwrap. Qed.
 Print Assumptions C01_text_cwrap.
+
+(* the hypothesis holds for every literal without a brace in its escaped text, and it is forced *)
+Theorem C01_text_cwrap_single : forall s : bytes,
+  forallb no_brace (escape s) = true -> str_single (JStr s) = true.
+Proof. exact str_single_no_brace. Qed.
+Print Assumptions C01_text_cwrap_single.
+Theorem C01_text_cwrap_quoted_literal :
+  scalar_core [] (JStr (B "a}}")) = true /\ str_single (JStr (B "a}}")) = false /\
+  cwrap [] false (JStr (B "a}}")) = Some [TText (B "a"); lit_close].
+Proof. exact text_cwrap_quoted_literal. Qed.
+Print Assumptions C01_text_cwrap_quoted_literal.
 
 (* the syntactic condition implies the semantic one wherever S answers without a new flag *)
 Theorem C01_dead_safe : forall funcs e fs s j s',
